@@ -302,7 +302,8 @@ fn legacy_sighash(
     };
     var_int::write(tx_out_list.len() as u64, &mut s)?;
     for (i, tx_out) in tx_out_list.iter().enumerate() {
-        if i == n_input && base_type == SIGHASH_SINGLE {
+        // SIGHASH_SINGLE: the outputs before n_input are blanked, the output at n_input is signed
+        if i < n_input && base_type == SIGHASH_SINGLE {
             let empty = TxOut {
                 satoshis: -1,
                 lock_script: Script(vec![]),
